@@ -94,6 +94,43 @@ func (n *btNode) shape(sb *strings.Builder) {
 	}
 }
 
+// full form with every page id outside `keep` replaced by 0 (a page the commit allocated)
+func (n *btNode) full(sb *strings.Builder, keep map[string]bool) {
+	pg := n.pgid
+	if !keep[pg] {
+		pg = "0"
+	}
+	if n.leaf {
+		fmt.Fprintf(sb, "L %s %s %s %s %d ", pg, n.mat, n.unb, n.key, len(n.items))
+		for _, it := range n.items {
+			fmt.Fprintf(sb, "%s %s %s ", it[0], it[1], it[2])
+		}
+		return
+	}
+	fmt.Fprintf(sb, "B %s %s %s %s %d ", pg, n.mat, n.unb, n.key, len(n.kids))
+	for i, c := range n.kids {
+		sb.WriteString(n.seps[i] + " ")
+		c.full(sb, keep)
+	}
+}
+
+func (n *btNode) allPgids(out map[string]bool) {
+	out[n.pgid] = true
+	for _, c := range n.kids {
+		c.allPgids(out)
+	}
+}
+
+func btKeep(s string, keep map[string]bool) string {
+	n, _ := parseBT(strings.Fields(s))
+	if n == nil {
+		return "unparsable:" + truncate(s, 80)
+	}
+	var sb strings.Builder
+	n.full(&sb, keep)
+	return strings.TrimSpace(sb.String())
+}
+
 func btShape(s string) string {
 	n, _ := parseBT(strings.Fields(s))
 	if n == nil {
@@ -211,7 +248,15 @@ func runBTreeScenario(rep *Report, sc btScenario, tag string) int {
 			btRebalanceLog = append(btRebalanceLog, n)
 		}
 	}
-	defer func() { bolt.VerifEventHook = nil }()
+	defer func() { bolt.VerifEventHook = nil; bolt.VerifFLHook = nil }()
+	var freedLog []uint64
+	bolt.VerifFLHook = func(_ *bolt.DB, ev string, a, b, c uint64) {
+		if ev == "free" {
+			for i := uint64(0); i <= c; i++ {
+				freedLog = append(freedLog, b+i)
+			}
+		}
+	}
 	ps := db.Info().PageSize
 	shadow := map[string]string{}
 	var lines, want []string
@@ -238,7 +283,14 @@ func runBTreeScenario(rep *Report, sc btScenario, tag string) int {
 		} else if fill > 1.0 {
 			fill = 1.0
 		}
-		add("tree "+b.VerifNodeTree(), "ok c=true i=true") // the decidable invariants hold on the tree the real code committed
+		before := b.VerifNodeTree()
+		add("tree "+before, "ok c=true i=true") // the decidable invariants hold on the tree the real code committed
+		beforeSet := map[string]bool{}
+		if bn, _ := parseBT(strings.Fields(before)); bn != nil {
+			bn.allPgids(beforeSet)
+		}
+		delete(beforeSet, "0")
+		freedLog = freedLog[:0]
 		add(fmt.Sprintf("cfg %d %d %d", ps, int(float64(ps)*fill), int(float64(ps)*t.Fill)/2+btDebugSkew), "ok")
 		for _, o := range t.Ops {
 			f := strings.Fields(o)
@@ -282,7 +334,33 @@ func runBTreeScenario(rep *Report, sc btScenario, tag string) int {
 			return nil
 		})
 		add("spill", "ok c=true")
-		add("dump", "SHAPE:"+btShape(after))
+		// the committed tree WITH the page ids of the pages the commit kept (everything else is a
+		// newly written page, 0): which old pages survive is part of the comparison
+		add("dump", "KEEP:"+btKeep(after, beforeSet))
+		// pages of the old tree the transaction freed = old pages that do not survive, each once
+		{
+			surv := map[string]bool{}
+			an, _ := parseBT(strings.Fields(after))
+			if an != nil {
+				an.allPgids(surv)
+			}
+			seen := map[uint64]int{}
+			for _, id := range freedLog {
+				seen[id]++
+			}
+			for pg := range beforeSet {
+				var id uint64
+				fmt.Sscan(pg, &id)
+				switch {
+				case surv[pg] && seen[id] > 0:
+					rep.violation("C07", "monitor", "btree-page-freed-and-kept", fmt.Sprintf("tx %d: page %s of the bucket's old tree was freed although the committed tree still references it", ti, pg), sc)
+				case !surv[pg] && seen[id] == 0:
+					rep.violation("C07", "monitor", "btree-page-leaked", fmt.Sprintf("tx %d: page %s of the bucket's old tree is neither referenced by the committed tree nor freed", ti, pg), sc)
+				case seen[id] > 1:
+					rep.violation("C07", "monitor", "btree-page-freed-twice", fmt.Sprintf("tx %d: page %s freed %d times", ti, pg, seen[id]), sc)
+				}
+			}
+		}
 		rep.count("tx")
 		// monitors on the committed tree itself
 		an, _ := parseBT(strings.Fields(after))
@@ -329,18 +407,16 @@ func runBTreeScenario(rep *Report, sc btScenario, tag string) int {
 	}
 	for i := range lines {
 		w, g := want[i], got[i]
-		if strings.HasPrefix(w, "SHAPE:") {
-			w = strings.TrimPrefix(w, "SHAPE:")
-			if g != "none" {
-				g = btShape(g)
-			}
+		if strings.HasPrefix(w, "KEEP:") {
+			w = strings.TrimPrefix(w, "KEEP:")
+			g = strings.TrimSpace(g)
 		} else {
 			g = strings.TrimSpace(g)
 		}
 		if w != g {
 			rep.Disagree++
 			kind := strings.Fields(lines[i])[0]
-			if kind == "dump" && strings.HasPrefix(want[i], "SHAPE:") {
+			if kind == "dump" && strings.HasPrefix(want[i], "KEEP:") {
 				kind = "committed-tree"
 			} else if kind == "dump" {
 				kind = "node-tree-after-ops"
